@@ -122,6 +122,17 @@ def refusal_satisfiable(cond, val, env):
     return (not inside_all), (iv, (lo, hi), X)
 
 
+def _int_leaves(v, d=0):
+    if isinstance(v, Int):
+        yield v
+    elif isinstance(v, Adt) and d < 4:
+        for f in v.fields:
+            yield from _int_leaves(f, d + 1)
+    elif isinstance(v, Tup) and d < 4:
+        for f in v.elems:
+            yield from _int_leaves(f, d + 1)
+
+
 def allocator_obligations(ck, tm, R=lambda r: r):
     """R11.1-R11.3, R11.5 on the loop-summarised allocator(s) of one target; returns the largest accepted distance (None if unknown).
     `R` renames the rule ids when another property repeats these obligations (C05 R5.10)."""
@@ -158,6 +169,11 @@ def allocator_obligations(ck, tm, R=lambda r: r):
             if v.status == "returned":
                 nret += 1
                 ret = v.ret
+                if not isinstance(ret, Int) and maps:
+                    # the allocator hands the mapping back inside a struct: judge the field that carries the mapping call's result
+                    cands = [x for x in _int_leaves(ret) if same_expr(x.e, maps[-1].ret.e)]
+                    if len(cands) == 1:
+                        ret = cands[0]
                 ok_ret = bool(maps) and isinstance(ret, Int) and same_expr(ret.e, maps[-1].ret.e)
                 # success edge of the sentinel test
                 sent = False
